@@ -280,16 +280,31 @@ func (c *Ctx) rulesC10() {
 	// C10.chk
 	if f := c.fn(pr + ":Client.clockUpdate"); f != nil && cs != nil {
 		fCk := c.field(pr, "MsgSrvUpdate", "Checksum")
-		ups := c.sitesIn(f, pr+":NetMachInternal.UpdateClock")
+		ups := c.innerSites(f, pr+":NetMachInternal.UpdateClock")
 		c.check(len(ups) == 1, "C10.chk", "clockUpdate applies the clock at one site", f.Pos(), fmt.Sprintf("%d UpdateClock sites", len(ups)))
 		var cfu []ssa.CallInstruction
 		if dfn := c.fnOpt(pr + ":Client.clockFromUpdate"); dfn != nil {
-			cfu = c.sitesIn(f, funcKey(dfn))
+			cfu = c.innerSites(f, funcKey(dfn))
+		}
+		// values seen through the phases clockUpdate was split into: a helper's
+		// parameter is what is passed for it, a helper's result what it returns
+		res := func(v ssa.Value) ssa.Value {
+			return c.resolveHosted(v, f, func(x ssa.Value) bool {
+				// the decoder's own results are where the resolution ends
+				if len(cfu) != 1 {
+					return false
+				}
+				if x == cfu[0].Value() {
+					return true
+				}
+				ex, ok := x.(*ssa.Extract)
+				return ok && ex.Tuple == cfu[0].Value()
+			})
 		}
 		inPlace := c.fnOpt(pr+":Client.clockFromUpdate") == nil
 		for i, s := range ups {
 			okg := false
-			gs := guardsOf(s.Block())
+			gs := c.guardsHosted(s, f)
 			for _, g := range gs {
 				v, neg := stripNot(g.Cond)
 				pol := g.Pol != neg
@@ -310,6 +325,7 @@ func (c *Ctx) rulesC10() {
 				if msgSide == nil {
 					continue
 				}
+				sumSide = res(sumSide)
 				// sumSide = Checksum(...) whose args derive from clockFromUpdate's results
 				call, ok := sumSide.(*ssa.Call)
 				if ok && inPlace && call.Call.StaticCallee() == cs {
@@ -366,8 +382,22 @@ func (c *Ctx) rulesC10() {
 					}
 				}
 				all := true
+				var fromCfu func(v ssa.Value, d int) bool
+				fromCfu = func(v ssa.Value, d int) bool {
+					return derives(v, func(x ssa.Value) bool {
+						if x == cfu[0].Value() {
+							return true
+						}
+						if p, ok := x.(*ssa.Parameter); ok && d < 3 {
+							if rv := res(p); rv != x {
+								return fromCfu(rv, d+1)
+							}
+						}
+						return false
+					})
+				}
 				for _, ar := range cargs {
-					if !derives(ar, func(x ssa.Value) bool { return x == cfu[0].Value() }) {
+					if !fromCfu(ar, 0) {
 						all = false
 					}
 				}
@@ -380,7 +410,8 @@ func (c *Ctx) rulesC10() {
 			args := s.Common().Args
 			okv := len(cfu) == 1 && len(args) == 4
 			for _, ar := range args[1:] {
-				if len(cfu) != 1 || !derives(ar, func(x ssa.Value) bool { return x == cfu[0].Value() }) {
+				isCfu := func(x ssa.Value) bool { return x == cfu[0].Value() }
+				if len(cfu) != 1 || !(derives(ar, isCfu) || derives(res(ar), isCfu)) {
 					okv = false
 				}
 			}
@@ -391,7 +422,13 @@ func (c *Ctx) rulesC10() {
 		}
 		// mismatch returns false
 		mism := false
-		for _, r := range returnsOf(f) {
+		var chkRets []*ssa.Return
+		for _, hf := range c.hostedFns(f) {
+			if hf.Signature.Results().Len() == 1 {
+				chkRets = append(chkRets, returnsOf(hf)...)
+			}
+		}
+		for _, r := range chkRets {
 			v := retVals(r)[0]
 			if b, ok := constBool(v); !ok || b {
 				continue
@@ -923,4 +960,51 @@ func stripIndexes(s string) string {
 		}
 	}
 	return string(out)
+}
+
+// resolveHosted looks through the private helpers root was split into: a
+// parameter of a hosted helper becomes the argument at its only call site, the
+// (single or extracted) result of a call of a hosted helper with one return
+// becomes the value returned there.
+func (c *Ctx) resolveHosted(v ssa.Value, root *ssa.Function, stop func(ssa.Value) bool) ssa.Value {
+	for d := 0; d < 6; d++ {
+		if stop != nil && stop(v) {
+			return v
+		}
+		switch x := v.(type) {
+		case *ssa.Parameter:
+			av := c.hostedArg(x, root)
+			if av == v {
+				return v
+			}
+			v = av
+		case *ssa.Extract:
+			call, ok := x.Tuple.(*ssa.Call)
+			if !ok {
+				return v
+			}
+			cal := call.Call.StaticCallee()
+			if cal == nil || cal == root || len(cal.Blocks) == 0 || !c.hostedBy(cal, root) {
+				return v
+			}
+			rs := returnsOf(cal)
+			if len(rs) != 1 || x.Index >= len(retVals(rs[0])) {
+				return v
+			}
+			v = retVals(rs[0])[x.Index]
+		case *ssa.Call:
+			cal := x.Call.StaticCallee()
+			if cal == nil || cal == root || len(cal.Blocks) == 0 || !c.hostedBy(cal, root) || cal.Signature.Results().Len() != 1 {
+				return v
+			}
+			rs := returnsOf(cal)
+			if len(rs) != 1 {
+				return v
+			}
+			v = retVals(rs[0])[0]
+		default:
+			return v
+		}
+	}
+	return v
 }
